@@ -256,11 +256,68 @@ func ruleMapFallbackScope(r *Report) {
 	}
 	fn = genericBody(fn)
 	key := rule + "/sstables.MapKeyIndex.Get/fallback-covers-the-slot"
-	calls := CallsIn(fn, Suffix("SliceKeyIndex.Get"))
+	// the search of the slice: the slice index' Get, or its binary search used directly
+	calls := CallsIn(fn, Suffix("SliceKeyIndex.Get", "SliceKeyIndex.search"))
 	if len(calls) == 0 {
 		return // no fallback: the verified-hit clause above decides
 	}
 	recv := fn.Params[0]
+	// a slot that is taken — by whatever key — never answers "absent" by itself: the keys that share it are in the slice
+	{
+		k3 := rule + "/sstables.MapKeyIndex.Get/taken-slot-is-searched"
+		var takenEdges []Edge
+		var notTaken []Edge // the other side of every test of the same flag: not on a path where the slot is taken
+		for _, b := range liveBlocks(fn) {
+			cnd, tS, fS, tE, _, ok := effCond(b)
+			if !ok {
+				continue
+			}
+			if ex, isE := cnd.(*ssa.Extract); isE && ex.Index == 1 {
+				if lk, isL := ex.Tuple.(*ssa.Lookup); isL && lk.CommaOk {
+					if _, isMap := lk.X.Type().Underlying().(*types.Map); isMap {
+						if tE {
+							takenEdges = append(takenEdges, Edge{b, tS})
+						}
+						notTaken = append(notTaken, Edge{b, fS})
+					}
+				}
+			}
+		}
+		if len(takenEdges) > 0 {
+			removed := map[Edge]bool{}
+			for _, e := range notTaken {
+				removed[e] = true
+			}
+			for _, c := range calls {
+				for _, su := range c.Block.Succs {
+					removed[Edge{c.Block, su}] = true
+				}
+			}
+			bad := ""
+			for _, e := range takenEdges {
+				reach := reachFrom(e.To, removed)
+				for _, rs := range returnsOf(fn) {
+					if !reach[rs.Block] {
+						continue
+					}
+					inCall := false
+					for _, c := range calls {
+						if c.Block == rs.Block {
+							inCall = true
+						}
+					}
+					if !inCall && returnedSentinel(rs.Block) == "skiplist.NotFound" {
+						bad = r.P.Pos(rs.Pos())
+					}
+				}
+			}
+			if bad != "" {
+				r.Bad(rule, k3, fn.Pos(), "a slot that another key holds answers \"absent\" ("+bad+") without a search of the slice: keys that differ only in trailing zero bytes share a slot, all but its owner are reported absent although they were written (the bloom filter and Scan still show them)")
+			} else {
+				r.OK(rule, k3, fn.Pos(), "from a taken slot \"absent\" is only reached through the slice search")
+			}
+		}
+	}
 	// does the loader leave a slot to the last key that maps to it? (a plain store per record, no test of the map)
 	lastWins, loaderSeen := false, false
 	if ld := r.P.Func("sstables.MapKeyIndexLoader.Load"); ld != nil && ld.Blocks != nil {
@@ -293,6 +350,12 @@ func ruleMapFallbackScope(r *Report) {
 		}
 		if fa, ok := x.(*ssa.FieldAddr); ok && paramOrigin(fa.X) == recv {
 			whole = true
+		}
+		// the slice itself, as it is (handed to the binary search directly)
+		if _, f, _, ok := loadOfField(rv); ok && f == "index" {
+			if _, isSl := rv.Type().Underlying().(*types.Slice); isSl {
+				whole = true
+			}
 		}
 		if whole {
 			r.OK(rule, key, c.Pos(), "the fallback searches the whole slice index")
@@ -709,7 +772,23 @@ func ruleMapLoaderLongKeys(r *Report) {
 	ld, get = genericBody(ld), genericBody(get)
 	isMaxLen := func(x ssa.Value) bool {
 		c, ok := x.(*ssa.Call)
-		return ok && c.Call.IsInvoke() && c.Call.Method.Name() == "MaxKeyLength"
+		if !ok {
+			return false
+		}
+		if c.Call.IsInvoke() && c.Call.Method.Name() == "MaxKeyLength" {
+			return true
+		}
+		// the comparison with the mapper's width in a bool helper of the package
+		if sc := c.Call.StaticCallee(); sc != nil && (inModule(sc) || inModule(genericBody(sc))) {
+			hit := false
+			eachInstr(genericBody(sc), func(t Site) {
+				if d, isC := t.Instr.(*ssa.Call); isC && d.Call.IsInvoke() && d.Call.Method.Name() == "MaxKeyLength" {
+					hit = true
+				}
+			})
+			return hit
+		}
+		return false
 	}
 	// lenGuarded: the site is reached only over the "fits" edge of a comparison with MaxKeyLength (or over the "not a
 	// bounded mapper" edge of the type assertion in front of it); skip is the other side of that comparison
@@ -732,7 +811,15 @@ func ruleMapLoaderLongKeys(r *Report) {
 				continue
 			}
 			if valueDependsOn(cnd, isMaxLen) {
-				rt, rf := reachFrom(tS, back)[site.Block], reachFrom(fS, back)[site.Block]
+				// within one round of the enclosing loop: a later round passes this test again
+				into := map[Edge]bool{}
+				for e := range back {
+					into[e] = true
+				}
+				for _, pr := range b.Preds {
+					into[Edge{pr, b}] = true
+				}
+				rt, rf := reachFrom(tS, into)[site.Block], reachFrom(fS, into)[site.Block]
 				if rt != rf {
 					guard = b
 					if rt {
@@ -966,5 +1053,150 @@ func ruleLzwWholeStream(r *Report, rule string) {
 	}
 	if n == 0 {
 		r.Missing(rule, rule+"/lzw/whole-stream-consumed", "no LZW decoder found")
+	}
+}
+
+// ruleLastGroupEmitted: the group that is buffered when the queue runs dry is reduced — whatever its key is.
+func ruleLastGroupEmitted(r *Report) {
+	const rule = "last-group-emitted"
+	r.Rule(rule, 1, "in MergeCompactionIterator.Next, once the queue reports exhaustion the end marker is returned only behind the reduction of the buffered group, or over the \"nothing is buffered\" edge — not depending on a comparison of keys (an exhausted queue hands out a nil key, which compares equal to the empty key)")
+	fn := r.NeedFunc(rule, "sstables.MergeCompactionIterator.Next")
+	if fn == nil {
+		return
+	}
+	key := rule + "/sstables.MergeCompactionIterator.Next"
+	next := CallsIn(fn, Suffix("PriorityQueueI.Next", "PriorityQueue.Next"))
+	if len(next) == 0 {
+		r.Unk(rule, key, fn.Pos(), "the queue's Next call was not found")
+		return
+	}
+	al := errAliases(next[0])
+	removed := map[Edge]bool{}
+	var starts []*ssa.BasicBlock
+	for _, b := range liveBlocks(fn) {
+		if v, g, isS, _, ok := sentinelTest(b); ok && (al[v] || al[stripIface(v)]) && g == "pq.Done" {
+			starts = append(starts, isS)
+		}
+		// on those paths the error is not nil
+		if v, nilS, _, ok := nilTest(b); ok && (al[v] || al[stripIface(v)]) {
+			removed[Edge{b, nilS}] = true
+		}
+		// "nothing is buffered"
+		for _, f := range ifCmpForms(b) {
+			z, isZ := constInt(f.Y)
+			if !isZ || z != 0 {
+				continue
+			}
+			c, isC := stripConvert(f.X).(*ssa.Call)
+			if !isC {
+				continue
+			}
+			if bi, isB := c.Call.Value.(*ssa.Builtin); !isB || bi.Name() != "len" {
+				continue
+			}
+			if _, fld, _, isF := loadOfField(c.Call.Args[0]); !isF || fld != "valBuf" {
+				continue
+			}
+			switch f.Op {
+			case token.EQL, token.LEQ:
+				removed[Edge{b, f.T}] = true
+			case token.GTR, token.NEQ:
+				removed[Edge{b, f.F}] = true
+			}
+		}
+	}
+	if len(starts) == 0 {
+		r.Unk(rule, key, next[0].Pos(), "no test of the queue's error against pq.Done found")
+		return
+	}
+	// the reduction: the dynamic call of the reduce field, or a helper that makes it
+	isReduce := func(c *ssa.Call) bool {
+		if _, fld, _, ok := loadOfField(c.Call.Value); ok && fld == "reduce" {
+			return true
+		}
+		return false
+	}
+	eachInstr(fn, func(s Site) {
+		c, ok := s.Instr.(*ssa.Call)
+		if !ok {
+			return
+		}
+		hit := isReduce(c)
+		if sc := c.Call.StaticCallee(); !hit && sc != nil && inModule(sc) {
+			eachInstr(sc, func(t Site) {
+				if d, isC := t.Instr.(*ssa.Call); isC && isReduce(d) {
+					hit = true
+				}
+			})
+		}
+		if hit {
+			for _, su := range s.Block.Succs {
+				removed[Edge{s.Block, su}] = true
+			}
+		}
+	})
+	bad := ""
+	for _, st := range starts {
+		reach := reachFrom(st, removed)
+		for _, rs := range returnsOf(fn) {
+			if reach[rs.Block] && returnedSentinel(rs.Block) == "sstables.Done" {
+				// a return in a block that holds the reduction itself is behind it
+				holds := false
+				for _, in := range rs.Block.Instrs {
+					if c, ok := in.(*ssa.Call); ok && isReduce(c) {
+						holds = true
+					}
+				}
+				if !holds {
+					bad = r.P.Pos(rs.Pos())
+				}
+			}
+		}
+	}
+	if bad != "" {
+		r.Bad(rule, key, next[0].Pos(), "with values still buffered the end marker can be returned ("+bad+") without the buffered group having been reduced: whether the last group is emitted depends on something else than \"is anything buffered\" — when it is a comparison of the exhausted queue's nil key with the group's key, a last group with the empty key is dropped (ScanRange(\"\", \"a\") on a stack, a merge of tables that hold only the empty key)")
+	} else {
+		r.OK(rule, key, next[0].Pos(), "exhaustion reaches the end marker only behind the reduction or over the empty-buffer edge")
+	}
+}
+
+// ruleDeleteIgnoresTombstoneState: deleting looks at whether the key is in the map, not at what it is mapped to.
+func ruleDeleteIgnoresTombstoneState(r *Report) {
+	const rule = "delete-ignores-tombstone-state"
+	r.Rule(rule, 2, "Delete and DeleteIfExists (with the helpers they call in package memstore) do not branch on whether the stored value is nil: a key that is tombstoned already is present in the map, deleting it again succeeds like the reference map's delete — KeyNotFound is for keys the skip list does not hold")
+	for _, k := range []string{"memstore.MemStore.Delete", "memstore.MemStore.DeleteIfExists"} {
+		fn := r.NeedFunc(rule, k)
+		if fn == nil {
+			continue
+		}
+		key := rule + "/" + k
+		bad := ""
+		fns := []*ssa.Function{fn}
+		for _, g := range moduleReach(r.P, []*ssa.Function{fn}) {
+			if pk := fnPkg(g); pk != nil && shortPkg(pk.Path()) == "memstore" && g != fn {
+				fns = append(fns, g)
+			}
+		}
+		for _, g := range fns {
+			for _, b := range liveBlocks(g) {
+				v, _, _, ok := nilTest(b)
+				if !ok {
+					continue
+				}
+				if u, isU := v.(*ssa.UnOp); isU && u.Op == token.MUL {
+					if _, isCell := valueCellOf(u.X); isCell {
+						bad = r.P.Pos(b.Instrs[len(b.Instrs)-1].Pos()) + " in " + FuncKey(g)
+						if bad[0] == '-' {
+							bad = FuncKey(g)
+						}
+					}
+				}
+			}
+		}
+		if bad != "" {
+			r.Bad(rule, key, fn.Pos(), "the delete path tests whether the stored value is nil ("+bad+"): what Delete answers for a key then depends on it being tombstoned already — Delete twice, or Tombstone then Delete, reports KeyNotFound for a key that is in the map")
+		} else {
+			r.OK(rule, key, fn.Pos(), "no branch on the stored value's nil-ness on the delete path")
+		}
 	}
 }
